@@ -255,6 +255,30 @@ def mutant_strings(ref, payload):
 
 
 WHITE_PADS = (' ', '\n', '\r\n', '\t', '  ', '\x0b', '\x0c', '\x00', '\xa0')
+def foreign_prefix_strings():
+    """Valid encodings of kind A whose TEXT begins with the text prefix of another kind B (a block hash that reads BLpk..., a
+    public key hash-like string that reads like a longer-prefixed kind): constructed, not searched - decode B's text prefix padded
+    to A's length, keep the bytes that A's binary prefix and payload occupy, re-encode with the right checksum."""
+    seen = set()
+    for a in B.KINDS:
+        for b in B.KINDS:
+            if a is b or not b[0].startswith(a[0][:1]):
+                continue
+            for fill in ('1', 'z', 'Q'):
+                text = (b[0] + fill * a[1])[:a[1]]
+                try:
+                    raw = B.b58decode(text)
+                except Exception:
+                    continue
+                raw = raw.rjust(len(a[2]) + a[3] + 4, b'\x00')
+                if len(raw) != len(a[2]) + a[3] + 4 or not raw.startswith(a[2]):
+                    continue
+                s = B.b58check_encode(a[2], raw[len(a[2]):len(a[2]) + a[3]])
+                if s.startswith(b[0]) and len(s) == a[1] and s not in seen:
+                    seen.add(s)
+                    yield s, f'valid {a[0]} whose text begins with the prefix of {b[0]}'
+
+
 ADDRESS_PREFIXES = ('tz1', 'tz2', 'tz3', 'tz4', 'KT1', 'sr1', 'txr1')
 
 
@@ -310,6 +334,7 @@ def shards(tier, seed):
     # two-step histories in ONE process: kind A, then kind B, then A again, for every ordered pair of kinds
     out += [('seq', i) for i in range(n)]
     out.append(('selfprefix',))
+    out.append(('textprefix',))
     # heaviest (longest strings) first
     rows = impl_rows()
     out.sort(key=lambda s: (0 if s[0] == 'mut' else 1, -rows[s[1]][1] if len(s) > 1 else 0))
@@ -397,6 +422,9 @@ def run_shard(spec, tier):
                     last = {'k': 'payload', 'i': i, 'payload': payload}
                     for d, detail in vs:
                         r.viol(d + ' [payload contains the binary prefix of its kind]', last, detail)
+    elif spec[0] == 'textprefix':
+        for s_, how in foreign_prefix_strings():
+            last = run_string(r, s_, how)
     elif spec[0] == 'mut':
         _, i = spec
         row = rows[i]
